@@ -372,9 +372,28 @@ def thread_env(rng, opts, inherited, n):
     return env
 
 
-def gen_program_opts(rng, name, scratch, kind='program', rich=None, inherited=None):
+def here_uses(rng, name, opts):
+    """the 'paths relative to the file that configures the program' idiom: %(here)s in command / environment / directory /
+    log file names.  Rewrites `opts` in place."""
+    d = dict(opts)
+    for u in rng.sample(['command', 'environment', 'directory', 'stdout_logfile', 'stderr_logfile'], rng.randrange(1, 4)):
+        if u == 'command':
+            d['command'] = d['command'] + rng.choice([' --home=%(here)s', ' -c %(here)s/app.ini', ' %(here)s/bin/run'])
+        elif u == 'environment':
+            d['environment'] = 'APP_HOME="%(here)s"' + (',' + d['environment'] if d.get('environment') else '')
+        elif u == 'directory':
+            d['directory'] = '%(here)s'
+        else:
+            d[u] = '%(here)s/' + name.replace('\u00e9', 'e') + '_%(process_num)d.' + u[:6]
+            if u == 'stderr_logfile':
+                d.pop('redirect_stderr', None)
+    opts[:] = [(k, d[k]) for k, _ in opts if k in d] + [(k, v) for k, v in d.items() if k not in dict(opts)]
+
+
+def gen_program_opts(rng, name, scratch, kind='program', rich=None, inherited=None, here_heavy=False):
     """[(key, value)] for one [program:x]-like section, plus the facts the monitors need.
-    inherited: when given ({variable: plain}), some sections additionally get the thread_env dimension."""
+    inherited: when given ({variable: plain}), some sections additionally get the thread_env dimension.
+    here_heavy: most sections use %(here)s (the include-layout dimension)."""
     rich = rng.random() < 0.7 if rich is None else rich
     facts = {'name': name, 'kind': kind}
     n = 1
@@ -459,6 +478,11 @@ def gen_program_opts(rng, name, scratch, kind='program', rich=None, inherited=No
             opts.append(('killasgroup', pick_bool(rng)))
         elif r < 0.45:
             opts.append(('stopasgroup', rng.choice(BOOL_F))); opts.append(('killasgroup', pick_bool(rng)))
+    if here_heavy and rng.random() < 0.8:
+        here_uses(rng, name, opts)
+        d = dict(opts)
+        env = d.get('environment')
+        facts.update(environment=env, command=d['command'])
     if inherited and rng.random() < 0.5:
         env = thread_env(rng, opts, inherited, n)
         d = dict(opts)
@@ -484,10 +508,11 @@ SUPENV_INHERIT = [
 OSENV_INHERIT = {'VERIF_A': True, 'VERIF_B': True, 'VERIF_N': True}
 
 
-def gen_config(rng, scratch, small=False, perproc=False):
+def gen_config(rng, scratch, small=False, perproc=False, layout=False):
     """-> dict(sections=[(name, [(k, v)])], facts=..., include=[indices of sections placed in an included file])
     perproc: add the dimension 'numprocs > 1 x environment= referring to its own inherited ENV_ variable (from os.environ
-    and from the [supervisord] environment) x use of the program's value in command/directory/log files/process_name'"""
+    and from the [supervisord] environment) x use of the program's value in command/directory/log files/process_name'
+    layout: add the dimension 'sections spread over included files' (gen_layout; most sections then use %(here)s)"""
     names = rng.sample(NAMES, len(NAMES))
     nprog = rng.choice([1, 1, 2, 2, 3, 4]) if small else rng.choice([1, 2, 2, 3, 3, 4, 5, 6])
     sections = []
@@ -515,7 +540,7 @@ def gen_config(rng, scratch, small=False, perproc=False):
     progs = []
     for _ in range(nprog):
         nm = names.pop()
-        opts, f = gen_program_opts(rng, nm, scratch, inherited=inherited)
+        opts, f = gen_program_opts(rng, nm, scratch, inherited=inherited, here_heavy=layout)
         sections.append(('program:' + nm, opts))
         facts['programs'].append(f)
         progs.append(nm)
@@ -536,7 +561,7 @@ def gen_config(rng, scratch, small=False, perproc=False):
     # event listeners
     while rng.random() < 0.35:
         nm = names.pop()
-        opts, f = gen_program_opts(rng, nm, scratch, kind='eventlistener', rich=rng.random() < 0.3, inherited=inherited)
+        opts, f = gen_program_opts(rng, nm, scratch, kind='eventlistener', rich=rng.random() < 0.3, inherited=inherited, here_heavy=layout)
         evs = rng.sample(event_names(), rng.randrange(1, 4))
         if rng.random() < 0.3:
             evs.append(evs[0])
@@ -555,7 +580,7 @@ def gen_config(rng, scratch, small=False, perproc=False):
     # fastcgi
     while rng.random() < 0.2:
         nm = names.pop()
-        opts, f = gen_program_opts(rng, nm, scratch, kind='fcgi', rich=rng.random() < 0.3, inherited=inherited)
+        opts, f = gen_program_opts(rng, nm, scratch, kind='fcgi', rich=rng.random() < 0.3, inherited=inherited, here_heavy=layout)
         sock = rng.choice(['tcp://localhost:9%03d' % rng.randrange(1000), 'tcp://Host.Example:80', 'unix:///tmp/%(program_name)s.sock',
                            'unix://' + scratch + '/f.sock'])
         opts.append(('socket', sock))
@@ -575,10 +600,193 @@ def gen_config(rng, scratch, small=False, perproc=False):
         tail.insert(pos, head[0]); head = []
     sections = head + tail
     include = []
+    if layout:
+        return {'sections': sections, 'facts': facts, 'include': [], 'layout': gen_layout(rng, sections)}
     if rng.random() < 0.25 and len(sections) > 2:
         cand = [i for i, (s, _) in enumerate(sections) if s != 'supervisord']
         include = sorted(rng.sample(cand, rng.randrange(1, len(cand))))
     return {'sections': sections, 'facts': facts, 'include': include}
+
+
+# ---------------------------------------------------------------------------------------------------
+# include layouts: which file holds which section, and how [include] files= names those files.
+# All paths are relative to the layout root <scratch>/L_<tag>/ ; placeholders {root} (absolute layout root) and
+# {rel} (layout root relative to the main file's directory) are filled in by write_config.
+# ---------------------------------------------------------------------------------------------------
+LAYOUT_FORMS = ['glob-file', 'literal', 'dot-relative', 'absolute', 'here', 'env', 'dir-star', 'dir-star', 'dir-class', 'dir-question',
+                'two-level', 'parent', 'two-patterns']
+
+
+def gen_layout(rng, sections, form=None):
+    """-> dict(form, main_sub, files=[{'path', 'sections': [indices]}], patterns=[text], sep, nested=None|file index,
+               decoys=[{'path', 'text'}])"""
+    form = form or rng.choice(LAYOUT_FORMS)
+    cand = [i for i, (s, _) in enumerate(sections) if s != 'supervisord']
+    rng.shuffle(cand)
+    keep = rng.randrange(0, max(1, len(cand) // 2 + 1)) if len(cand) > 1 else 0      # sections that stay in the main file
+    moved = cand[keep:]
+    main_sub = ''
+    decoys = []
+    if form in ('glob-file', 'absolute', 'here', 'env'):
+        d = 'alpha' if form == 'env' else 'inc'
+        paths = ['%s/part%d.conf' % (d, k) for k in range(rng.choice([1, 1, 2, 3]))]
+        pat = {'glob-file': '{rel}inc/*.conf', 'absolute': '{root}/inc/*.conf', 'here': '%(here)s/{rel}inc/*.conf',
+               'env': '{rel}%(ENV_VERIF_A)s/*.conf'}[form]
+        patterns = [pat]
+        decoys.append({'path': d + '/notes.txt', 'text': '[program:decoy_suffix]\ncommand=/bin/decoy\n'})
+    elif form in ('literal', 'dot-relative'):
+        paths = ['inc/extra.conf']
+        patterns = [('./' if form == 'dot-relative' else '') + '{rel}inc/extra.conf']
+    elif form == 'dir-star':
+        dirs = rng.sample(['alpha', 'beta', 'gamma', 'x1'], rng.choice([1, 2, 2, 3]))
+        paths = ['apps/%s/supervisor.conf' % d for d in dirs]
+        patterns = ['{rel}apps/*/supervisor.conf']
+        decoys.append({'path': 'apps/README', 'text': 'not a directory\n'})
+    elif form == 'dir-class':
+        paths = ['apps/alpha/x.conf', 'apps/beta/x.conf']
+        patterns = ['{rel}apps/[ab]*/x.conf']
+        decoys.append({'path': 'apps/gamma/x.conf', 'text': '[program:decoy_class]\ncommand=/bin/decoy\n'})
+    elif form == 'dir-question':
+        paths = ['srv1/app.conf', 'srv2/app.conf']
+        patterns = ['{rel}srv?/app.conf']
+        decoys.append({'path': 'srv10/app.conf', 'text': '[program:decoy_question]\ncommand=/bin/decoy\n'})
+    elif form == 'two-level':
+        paths = rng.sample(['conf.d/a/p.ini', 'conf.d/a/q.ini', 'conf.d/b/p.ini', 'conf.d/b/r.ini'], rng.choice([2, 3, 4]))
+        patterns = ['{rel}conf.d/*/*.ini']
+        decoys.append({'path': 'conf.d/top.ini', 'text': '[program:decoy_level]\ncommand=/bin/decoy\n'})
+    elif form == 'parent':
+        main_sub = 'main'
+        paths = ['shared/one.conf', 'shared/two.conf'][:rng.choice([1, 2])]
+        patterns = ['../shared/*.conf']
+    else:   # two-patterns: a literal directory and a wildcard directory, in one files= value
+        paths = ['inc/part.conf', 'apps/alpha/supervisor.conf', 'apps/beta/supervisor.conf']
+        patterns = ['{rel}inc/*.conf', '{rel}apps/*/supervisor.conf']
+        if rng.random() < 0.5:
+            patterns.reverse()
+    if rng.random() < 0.25:
+        patterns.insert(rng.randrange(len(patterns) + 1), '{rel}nothing-here/*.conf')     # matches nothing: a warning, not an error
+    files = [{'path': p, 'sections': []} for p in paths]
+    for k, i in enumerate(moved):
+        files[k % len(files)]['sections'].append(i)
+    if not moved:
+        files = files[:1]
+    for f in files:
+        f['sections'].sort()
+    nested = None
+    if rng.random() < 0.3:
+        # an included file with an [include] section of its own: not followed
+        nested = rng.randrange(len(files))
+        decoys.append({'path': 'nested/deep.conf', 'text': '[program:decoy_nested]\ncommand=/bin/decoy\n'})
+    return {'form': form, 'main_sub': main_sub, 'files': files, 'patterns': patterns, 'sep': rng.choice([' ', ' ', '\n', '  ']),
+            'nested': nested, 'decoys': decoys}
+
+
+def layout_paths(layout, dirpath, tag):
+    """(layout root, main file path, {file index: absolute path})"""
+    root = os.path.join(dirpath, 'L_%s' % tag)
+    if layout.get('main_sub'):
+        main = os.path.join(root, layout['main_sub'], 'sv_%s.conf' % tag)
+    else:
+        main = os.path.join(dirpath, 'sv_%s.conf' % tag)
+    return root, main, {k: os.path.join(root, f['path']) for k, f in enumerate(layout['files'])}
+
+
+def layout_here(cfg, dirpath, tag):
+    """{section index: directory of the file that holds the section} -- what %(here)s stands for there (documented)"""
+    root, main, fpaths = layout_paths(cfg['layout'], dirpath, tag)
+    here = {i: os.path.dirname(main) for i in range(len(cfg['sections']))}
+    for k, f in enumerate(cfg['layout']['files']):
+        for i in f['sections']:
+            here[i] = os.path.dirname(fpaths[k])
+    return here
+
+
+def include_patterns(cfg, dirpath, tag):
+    """the absolute include patterns of a case in the order of its files= value (the harness's own reading of what it wrote)"""
+    import platform as _pf
+    if cfg.get('layout'):
+        lay = cfg['layout']
+        root, main, _ = layout_paths(lay, dirpath, tag)
+        rel = '' if lay.get('main_sub') else 'L_%s/' % tag
+        base = os.path.dirname(main)
+        out = []
+        for x in lay['patterns']:
+            x = x.replace('{rel}', rel).replace('{root}', root).replace('%(here)s', base).replace('%(host_node_name)s', _pf.node())
+            for k, v in ENV_VARS.items():
+                x = x.replace('%%(ENV_%s)s' % k, v)
+            out.append(os.path.join(base, x))
+        return main, out
+    main = os.path.join(dirpath, 'sv_%s.conf' % tag)
+    if cfg.get('include'):
+        return main, [os.path.join(dirpath, 'inc_%s/*.conf' % tag)]
+    return main, []
+
+
+def include_tokens(cfg, dirpath, tag, here):
+    """case tokens of the include model: each file tokenised ALONE by the real parser class (tokenisation is trusted), the
+    matches of every pattern by glob (a parameter of the model)"""
+    import glob
+    st = _classes()
+    def file_toks(path):
+        p = st['real_parser']()
+        p.read(path)
+        toks = []
+        for sname in p.sections():
+            if sname == 'include':
+                continue
+            toks.append('S=' + hx(sname))
+            for k, v in p.items(sname):
+                toks.append('O=%s:%s' % (hx(k), hx(v)))
+        return toks
+    main, pats = include_patterns(cfg, dirpath, tag)
+    toks = ['H=' + hx(here)] + file_toks(main)
+    for pat in pats:
+        toks.append('P=' + hx(os.path.abspath(os.path.dirname(pat))))
+        for fn in sorted(glob.glob(pat)):
+            toks.append('F=' + hx(os.path.abspath(os.path.dirname(fn))))
+            toks.extend(file_toks(fn))
+    return toks
+
+
+def parser_view(parser):
+    """the real parser's sections after read_include_config, in the include model's output form"""
+    toks = []
+    for sname in parser.sections():
+        if sname == 'include':
+            continue
+        toks.append('S=' + hx(sname))
+        for k, v in parser.items(sname):
+            toks.append('O=%s:%s' % (hx(k), hx(v)))
+    return ' '.join(toks)
+
+
+def write_layout(cfg, dirpath, tag):
+    import shutil
+    lay = cfg['layout']
+    secs = cfg['sections']
+    root, main, fpaths = layout_paths(lay, dirpath, tag)
+    shutil.rmtree(root, ignore_errors=True)
+    os.makedirs(os.path.dirname(main), exist_ok=True)
+    rel = '' if lay.get('main_sub') else 'L_%s/' % tag
+    moved = set()
+    for k, f in enumerate(lay['files']):
+        os.makedirs(os.path.dirname(fpaths[k]), exist_ok=True)
+        body = [secs[i] for i in f['sections'] if i < len(secs)]
+        moved.update(f['sections'])
+        if lay.get('nested') == k:
+            body = body + [('include', [('files', '../nested/*.conf ' + os.path.join(root, 'nested', '*.conf'))])]
+        with open(fpaths[k], 'w', encoding='utf-8') as fh:
+            fh.write(render(body))
+    for d in lay.get('decoys') or []:
+        p = os.path.join(root, d['path'])
+        os.makedirs(os.path.dirname(p), exist_ok=True)
+        with open(p, 'w', encoding='utf-8') as fh:
+            fh.write(d['text'])
+    pats = lay['sep'].join(x.replace('{rel}', rel).replace('{root}', root) for x in lay['patterns'])
+    mainsecs = [s for i, s in enumerate(secs) if i not in moved] + [('include', [('files', pats)])]
+    with open(main, 'w', encoding='utf-8') as fh:
+        fh.write(render(mainsecs))
+    return main
 
 
 def render(sections):
@@ -593,7 +801,9 @@ def render(sections):
 
 
 def write_config(cfg, dirpath, tag):
-    """writes the main file (and the included one); returns the main path"""
+    """writes the main file (and the included ones); returns the main path"""
+    if cfg.get('layout'):
+        return write_layout(cfg, dirpath, tag)
     main = os.path.join(dirpath, 'sv_%s.conf' % tag)
     secs = cfg['sections']
     inc = set(cfg.get('include') or [])
